@@ -222,7 +222,8 @@ def parse_assumptions(log):
             cur = []
             res.append(cur)
         elif cur is not None:
-            m = re.match(r"^([A-Za-z_][\w.']*)\s*:", l)
+            # an entry is "name : type" on one line, or "name" alone followed by an indented "  : type" continuation
+            m = re.match(r"^([A-Za-z_][\w.']*)\s*(:|$)", l)
             if m:
                 cur.append(m.group(1))
             elif l.strip() == "" or not l.startswith(" "):
